@@ -710,6 +710,74 @@ func runC06(w *World) {
 	if F.inst.srv.aofsz >= checksumsz {
 		w.stat("probe.follower_log_exceeds_checksum_window", 1)
 	}
+	// an act of memory pressure (one run in four): the follower is put over its own maxmemory
+	// while the leader acknowledges more writes. It may fall behind for as long as it likes; it
+	// may not report caught-up while it lacks them, and once the pressure is gone it converges.
+	// (Only with a follower log shorter than the checksum window: with a longer one every
+	// reconnect re-loads the follower's own log, the re-load runs into the same refusal and
+	// tile38 ends the process with log.Fatal "could not reload aof" - a dead follower reports
+	// nothing, so the property has nothing to say about it; noted in DESIGN.md section 12.)
+	if !w.failed() && w.knob("oom", 4) == 1 && F.inst != nil && F.inst.ready() && F.inst.srv.aofsz < checksumsz {
+		fob := newObserver(w, F)
+		fob.a.from = "127.0.0.1:50920"
+		if v, ok := fob.do("CONFIG", "SET", "maxmemory", "1"); !ok || v.isErr() {
+			if !w.failed() {
+				w.harnessErr("CONFIG SET maxmemory on the follower failed: %v", v.String())
+			}
+			return
+		}
+		w.Sleep(4500 * time.Millisecond) // the memory watcher looks every 4 s
+		lob := newObserver(w, L)
+		lob.a.from = "127.0.0.1:50921"
+		for i := 0; i < 6; i++ {
+			if _, ok := lob.do("SET", "k1", fmt.Sprintf("mem%d", i), "POINT", "5", fmt.Sprint(i)); !ok {
+				return
+			}
+		}
+		if _, ok := lob.do("FSET", "k1", "mem0", "f1", "77"); !ok {
+			return
+		}
+		if F.inst.srv.outOfMemory.Load() {
+			w.stat("probe.follower_over_maxmemory_while_leader_writes", 1)
+		}
+		underPressure := func() bool {
+			fi := F.inst
+			if fi == nil || fi.dead || !fi.ready() || !fi.srv.caughtUp() || fi.lock.writer != nil || L.inst.lock.writer != nil {
+				return false
+			}
+			return true
+		}
+		// while the pressure lasts: a follower that goes on saying caught-up (leader quiescent) is a
+		// copy. The flag of a connection that has just failed is reset only when the follower
+		// reconnects, a second later - as after any lost connection; what counts is a report that
+		// persists: here, at every one of five samples spanning two seconds.
+		persist := 0
+		for i := 0; i < 9 && !w.failed(); i++ {
+			w.Sleep(500 * time.Millisecond)
+			w.Settle()
+			if underPressure() && L.inst.dump().text(true) != F.inst.dump().text(true) {
+				persist++
+			} else {
+				persist = 0
+			}
+			if persist >= 5 {
+				w.violate("C06/caught-up-over-maxmemory", "over its maxmemory the follower has reported caught-up for 2 s with the leader quiescent, but the datasets differ: %s", firstDiff(L.inst.dump().text(true), F.inst.dump().text(true)))
+				return
+			}
+		}
+		if v, ok := fob.do("CONFIG", "SET", "maxmemory", "0"); !ok || v.isErr() {
+			return
+		}
+		if !w.Drain(30*time.Second, equal) && !w.failed() {
+			if underPressure() {
+				w.violate("C06/diverged-after-maxmemory", "the memory pressure is gone, the follower reports caught-up, the leader is quiescent, but the datasets differ: %s", firstDiff(L.inst.dump().text(true), F.inst.dump().text(true)))
+				return
+			}
+			w.stat("probe.follower_never_reported_caught_up", 1)
+			return
+		}
+		w.stat("probe.follower_converges_after_memory_pressure", 1)
+	}
 	// last act (one run in four): the follower is pointed at ANOTHER leader with unrelated data,
 	// while its old leader goes on writing. "Whatever the follower held before FOLLOW" includes
 	// a live replication stream from somebody else: once it reports caught-up, it is a copy of
